@@ -31,7 +31,7 @@ func c03SweepBases(tier string) int {
 	if tier == "thorough" {
 		return 60
 	}
-	return 4
+	return 6
 }
 
 func init() {
@@ -232,6 +232,10 @@ func c03Sweep(c *vk.Case, i int) {
 	if ps.Batch < ps.Conc {
 		ps.Batch = ps.Conc * 2
 	}
+	if (base/3)%2 == 1 && ps.Conc > 1 {
+		// every partition holds one block: the seam between the last two partitions is the last link of the step
+		ps.Batch = ps.Conc
+	}
 	gob := &c03Obs{reorgKinds: map[string]bool{}}
 	golden := ps.run(c, runOpts{Snapshots: true, KP: "golden:", FinalVerdict: true, OnStep: c03OnStep(c, "golden:", ps, gob, nil)})
 	if golden == nil || len(c.Res.Violations) > 0 || golden.SetupErr != "" || !golden.Idle {
@@ -264,7 +268,7 @@ func c03Sweep(c *vk.Case, i int) {
 		}
 		d := 1 + (k % 3)
 		op := histOp{Kind: "reorg", Depth: d, NewLen: []int{d, d + 1, 1}[k%3]}
-		tr := &triggerSpec{Step: p.step, RPCSig: p.sig, RPCOcc: p.occ, Op: op}
+		tr := &triggerSpec{Step: p.step, RPCSig: p.sig, RPCOcc: p.occ, Op: op, AfterOthers: ps.Conc > 1 && (k/3)%2 == 0}
 		ob := &c03Obs{reorgKinds: map[string]bool{"trigger": true}}
 		extra := map[string]any{"trigger": fmt.Sprintf("%s before %s#%d of step %d", op, p.sig, p.occ, p.step)}
 		nv := len(c.Res.Violations)
